@@ -45,6 +45,27 @@ Theorem C17_enumeration_text :
 Proof. exact rearrange_text. Qed.
 Print Assumptions C17_enumeration_text.
 
+(** the proposal object and its [applied] flag ([run_ops]: the tree after every operation):
+    Apply, Undo, Apply, Undo gives the neighbour, the original, the same neighbour, the
+    original; a second Apply, an Undo before any Apply and a second Undo change nothing *)
+Theorem C17_object_sequences :
+  forall t r, wf t = true -> In r (nni_list t) ->
+    exists t1, apply r t = Some t1 /\
+      run_ops r [OpApply; OpUndo; OpApply; OpUndo] (false, t) = Some ([t1; t; t1; t], (false, t)) /\
+      run_ops r [OpApply; OpApply; OpUndo; OpUndo] (false, t) = Some ([t1; t1; t; t], (false, t)) /\
+      run_ops r [OpUndo; OpApply; OpUndo] (false, t) = Some ([t; t1; t], (false, t)).
+Proof. exact object_sequences. Qed.
+Print Assumptions C17_object_sequences.
+
+(** proposals kept by the caller and used after the enumeration, in any order and any number
+    of times ([pick t order]: the entries of the enumeration at the indexes [order]): each
+    gives its own neighbour [apply r t] of the original tree, which is left as it was *)
+Theorem C17_kept_proposals :
+  forall t order rs, wf t = true -> Model.NNI.pick t order = Some rs ->
+    exists l, enumerate rs t = Some (l, t) /\ Forall2 (fun r t' => apply r t = Some t') rs l.
+Proof. exact kept_proposals. Qed.
+Print Assumptions C17_kept_proposals.
+
 (** * every proposal is a well-formed tree on the same tips with every branch's data *)
 Theorem C17_neighbour :
   forall t r t', wf t = true -> In r (nni_list t) -> apply r t = Some t' ->
